@@ -386,7 +386,13 @@ func (e *InterpreterEnvironment) newContractValueHandler() interpreter.ContractV
 		}
 
 		if addressLocation, ok := contractLocation.(common.AddressLocation); ok {
-			return loadContractValue(inter, addressLocation, e.storage)
+			contractValue := loadContractValue(inter, addressLocation, e.storage)
+			if contractValue == nil {
+				// NOTE: return an untyped nil, not a nil *interpreter.CompositeValue,
+				// so that the caller is able to detect that there is no contract value
+				return nil
+			}
+			return contractValue
 		}
 
 		panic(errors.NewDefaultUserError("failed to load contract: %s", contractLocation))
